@@ -65,10 +65,10 @@ class AccessPattern(ABC):
     def canonicalize(self) -> Self:
         # remove dimensions with bound 1
         pattern = AffineTransform(
-            self.pattern.A[:, [bound is None or bound > 1 for bound in self.bounds]],
+            self.pattern.A[:, [bound is None or bound != 1 for bound in self.bounds]],
             self.pattern.b,
         )
-        bounds = [bound for bound in self.bounds if bound is None or bound > 1]
+        bounds = [bound for bound in self.bounds if bound is None or bound != 1]
         return type(self)(bounds, pattern)
 
 
